@@ -28,6 +28,36 @@ class Undetermined(Exception):
     pass
 
 
+class Rewrite(Exception):
+    """The interpreted code rewrites (not merely cuts) a string that contains an opaque atom, and a concrete value of the atom
+    is changed by the rewriting: the component that produced the string verbatim and this one disagree on that value."""
+
+    def __init__(self, node, detail):
+        super().__init__(detail)
+        self.node, self.detail = node, detail
+
+
+NAME_ALPHABET = "aB1 -()._"
+
+
+def rewrite_witness(fn, max_len=4):
+    """A field-name-like string (no ':' ',' ';' '/' '!' '<-', no outer blanks) that `fn` changes, or None.  Bounded search over
+    a small alphabet; the function is a constant string transformation taken from the source (regex / replace / case)."""
+    import itertools as _it
+    for n in range(1, max_len + 1):
+        for tup in _it.product(NAME_ALPHABET, repeat=n):
+            w = "".join(tup)
+            if w != w.strip() or "<-" in w:
+                continue
+            try:
+                r = fn(w)
+            except Exception:
+                continue
+            if r != w:
+                return w, r
+    return None
+
+
 class PyExc(Exception):
     """An exception raised by the interpreted code."""
 
@@ -712,9 +742,27 @@ class SymEval:
                 if r is not NotImplemented:
                     return r
             raise Undetermined(f"call of {n}")
+        if isinstance(f, ast.Attribute) and isinstance(f.value, ast.Name) and f.value.id == "re" and f.value.id not in env:
+            if f.attr == "sub" and len(args) >= 3 and all(isinstance(a, TS) for a in args[:3]) and args[0].all_lit() and args[1].all_lit():
+                import re as _re
+                pat, rep, subj = args[0].text(), args[1].text(), args[2]
+                if subj.all_lit():
+                    return TS.lit(_re.sub(pat, rep, subj.text()))
+                w = rewrite_witness(lambda x: _re.sub(pat, rep, x))
+                if w:
+                    raise Rewrite(e, f"re.sub({pat!r}, {rep!r}, ..) is applied to text that still contains a field name: the name {w[0]!r} is turned into {w[1]!r}")
+                raise Undetermined("re.sub on a symbolic string")
+            raise Undetermined(f"re.{f.attr}")
         if isinstance(f, ast.Attribute):
             recv = self.ev(f.value, env)
             m = f.attr
+            if isinstance(recv, TS) and not recv.all_lit() and m in ("replace", "lower", "upper", "casefold", "title", "capitalize", "swapcase", "translate", "expandtabs"):
+                lits = [a.text() for a in args if isinstance(a, TS) and a.all_lit()]
+                if len(lits) == len(args):
+                    w = rewrite_witness(lambda x: getattr(x, m)(*lits))
+                    if w:
+                        raise Rewrite(e, f".{m}({', '.join(map(repr, lits))}) is applied to text that still contains a field name: the name {w[0]!r} is turned into {w[1]!r}")
+                raise Undetermined(f"str.{m} on a symbolic string")
             if isinstance(recv, TS):
                 if m == "split":
                     ms = args[1] if len(args) > 1 else kwargs.get("maxsplit", -1)
